@@ -154,6 +154,22 @@ func (e *Enc) libModel(fr *Frame, full string, callee *ssa.Function, args []Val,
 		e.permuteSlice(args[0].T, types.Typ[types.String], cur)
 		e.countCall(cur, shortFuncName(callee), args)
 		return unit, true
+	case "github.com/libp2p/go-msgio.NewVarintReaderSize", "github.com/libp2p/go-msgio.NewVarintReader", "github.com/libp2p/go-msgio/protoio.NewDelimitedWriter":
+		v := e.freshResult(resType, cur, "rdr")
+		if v.S == "Iface" {
+			e.assume(not(eq(v.T, "nilI")))
+		}
+		e.note("constructor " + full + " returns a non-nil value (assumed contract of the dependency)")
+		e.countCall(cur, shortFuncName(callee), args)
+		return markExt(v), true
+	case "github.com/libp2p/go-libp2p/core/peerstore.GetCertifiedAddrBook":
+		// (cab, ok): ok implies a non-nil address book (assumed contract of the dependency)
+		v := e.freshResult(resType, cur, "cab")
+		if len(v.Tup) == 2 && v.Tup[0].S == "Iface" {
+			e.assume(implies(v.Tup[1].T, not(eq(v.Tup[0].T, "nilI"))))
+		}
+		e.countCall(cur, shortFuncName(callee), args)
+		return markExt(v), true
 	case "math/rand.Intn", "math/rand.Int63n", "math/rand.Int31n":
 		e.safety(fr, cur, "randn", pos, "(> "+args[0].T+" 0)", instr)
 		v := e.freshVal("rnd", types.Typ[types.Int], cur)
@@ -224,6 +240,15 @@ func (e *Enc) ifaceModel(fr *Frame, full string, recv Val, args []Val, resType t
 		return v, true
 	case "error.Error":
 		return e.freshVal("errstr", resType, cur), true
+	case "host.Host.Peerstore", "host.Host.Network", "host.Host.ConnManager", "host.Host.Mux", "network.Stream.Conn", "host.Host.EventBus":
+		// accessors of the libp2p host/stream never return a nil interface (assumed contract of the dependency)
+		v := e.freshVal("acc", resType, cur)
+		if v.S == "Iface" {
+			e.assume(not(eq(v.T, "nilI")))
+		}
+		e.note("libp2p accessor " + full + " returns a non-nil interface (assumed contract of the dependency)")
+		e.countCall(cur, shortIfaceName(full), append([]Val{recv}, args...))
+		return markExt(v), true
 	case "sync.Locker.Lock", "sync.Locker.Unlock":
 		e.note("sync.Locker.Lock/Unlock through the interface are not tied to a monitor (the callers pass the owning cache's mutex)")
 		return Val{T: "unit", S: "Unit"}, true
@@ -523,4 +548,12 @@ func (e *Enc) snapshotLin(cur *pathState) {
 		lc.Zero = c.Name + ".0"
 		cur.st.v[lc.Name] = e.get(cur.st, c)
 	}
+}
+
+func shortIfaceName(full string) string {
+	// pkg.Type.Method -> Type.Method
+	if j := strings.Index(full, "."); j >= 0 && strings.Count(full, ".") >= 2 {
+		return full[j+1:]
+	}
+	return full
 }
